@@ -2,13 +2,24 @@
 # usage: tools/mutant.sh <patch-file> <check-id> [tier]
 # Applies a patch to a scratch copy of /repo (outside /repo and /verif), runs
 # the check against it with VERIF_REPO, prints the exit code, removes the copy.
+# KEEP_REPLAY=<dir>: the replay files the run produced are copied there as
+# <check-id>--<patch name>--<n>.json before the scratch copy is removed.
 P=$(readlink -f "$1"); ID=$2; TIER=${3:-quick}
 D=/var/tmp/mv-mut-$$
 mkdir -p $D/out && cp -r /repo/mistral $D/mistral || exit 2
 ( cd $D && patch -p1 -s < "$P" ) || { echo "PATCH FAILED"; rm -rf $D; exit 2; }
 find $D -name __pycache__ -prune -exec rm -rf {} + 2>/dev/null
-VERIF_REPO=$D VERIF_OUT=$D/out /verif/check $ID --tier $TIER
+VERIF_REPO=$D VERIF_OUT=$D/out VERIF_NO_REGRESS=${VERIF_NO_REGRESS:-} /verif/check $ID --tier $TIER
 RC=$?
+if [ -n "$KEEP_REPLAY" ] && [ -d $D/out/replays ]; then
+  mkdir -p "$KEEP_REPLAY"
+  n=0
+  PN=$(basename $(dirname $P))-$(basename $P | sed 's/\.patch$//; s/\.diff$//')
+  for f in $D/out/replays/*.json; do
+    [ -f "$f" ] || continue
+    cp "$f" "$KEEP_REPLAY/$ID--$PN--$n.json"; n=$((n+1))
+  done
+fi
 echo "mutant $(basename $P) check $ID exit=$RC"
 rm -rf $D
 exit $RC
